@@ -408,7 +408,7 @@ fn free_one(rt: &tokio::runtime::Runtime, seed: u64, clients: usize, nops: usize
                         }
                     } else {
                         // a call that never returns (lost reply / lost wake-up) is recorded as such
-                        match tokio::time::timeout(std::time::Duration::from_secs(5), fut).await {
+                        match tokio::time::timeout(std::time::Duration::from_secs(30), fut).await {
                             Ok(r) => Some(r),
                             Err(_) => Some(vec![RespValue::err("HARNESS never completed"); call.subs.len()]),
                         }
